@@ -786,6 +786,23 @@ class SymUnicodedata:
         return getattr(_ud, name)
 
 
+SET_ORDER_FORK = [False]      # True (set by a harness): the iteration order of a set of strings is nondeterministic
+
+
+def _set_order(xs):
+    """iteration order of a set: CPython's depends on the interpreter's hash seed for str elements.  When a harness asks for
+    it, the order becomes a decision of the path (insertion order or its reverse: two of the n! orders, stated bound)."""
+    if SET_ORDER_FORK[0] and len(xs) >= 2 and all(isinstance(x, (str, TStr)) for x in xs):
+        if branch(core.fresh_bool("set_order_reversed")):
+            core.CUR.notes.setdefault("set_orders", []).append("reversed")
+            return list(reversed(xs))
+        core.CUR.notes.setdefault("set_orders", []).append("insertion")
+    return list(xs)
+
+
+core.RESET_HOOKS.append(lambda: SET_ORDER_FORK.__setitem__(0, False))
+
+
 class SymSet:
     """eq-based (list-backed) set used when an element is a string with symbolic digits.
     Lazy: duplicates are only removed when len()/iteration is observed (emptiness and membership do not need it)."""
@@ -816,7 +833,7 @@ class SymSet:
 
     def __iter__(self):
         self._norm()
-        return iter(self.xs)
+        return iter(_set_order(self.xs))
 
     def __len__(self):
         self._norm()
@@ -877,7 +894,14 @@ class _PromotingSet(set):
         return len(self._s()) if self._s() is not None else set.__len__(self)
 
     def __iter__(self):
-        return iter(self._s()) if self._s() is not None else set.__iter__(self)
+        if self._s() is not None:
+            return iter(self._s())
+        if SET_ORDER_FORK[0]:
+            if not hasattr(self, "_ins"):
+                self._ins = list(set.__iter__(self))
+            return iter(_set_order([x for x in self._ins if set.__contains__(self, x)] +
+                                   [x for x in set.__iter__(self) if x not in self._ins]))
+        return set.__iter__(self)
 
     def pop(self):
         if self._s() is not None:
@@ -895,4 +919,11 @@ def sx_set(it=()):
     from . import dates as _d
     if any(isinstance(x, _d.SDateTime) for x in it):
         return SymSet(it)
-    return _PromotingSet(it)
+    r = _PromotingSet(it)
+    if SET_ORDER_FORK[0]:
+        seen = []
+        for x in it:                      # insertion order (a real set forgets it)
+            if x not in seen:
+                seen.append(x)
+        r._ins = seen
+    return r
